@@ -242,11 +242,12 @@ def ann_entry(a, owner, depth=0):
     s2 = d.get("_annotations")
     if s2 is not None and depth < 2:
         sub = [ann_entry(x, a, depth + 1) for x in list(getattr(s2, "_item_list", []))]
+        for x in sub:
+            x.pop("_own", None)
     meta = _crc("|".join(_s(d.get(k)) for k in ("_name_prefix", "_namespace", "datatype_hint", "annotate_as_reference",
                                                 "is_hidden", "real_value_format_specifier")))
-    own_bound = bool(bound and isinstance(raw, tuple) and len(raw) == 2 and raw[0] is owner)
-    return {"name": _s(d.get("name")), "bound": bound, "self": own_bound, "attr": attr, "val": via_ann,
-            "own": via_owner if own_bound else "", "meta": meta, "sub": sub}
+    return {"name": _s(d.get("name")), "bound": bound, "attr": attr, "val": via_ann, "meta": meta, "sub": sub,
+            "_own": via_owner}
 
 
 def _s_any(v):
@@ -262,7 +263,8 @@ def _s_any(v):
 def annotable_view(o):
     """(ann, bnd) of one Annotable, read from __dict__ only (the ``annotations`` property would create an
     empty set as a side effect).  ann: comments and annotations by value.  bnd: is the set's target its owner
-    (1 yes, 2 no, 0 no set), and per bound annotation whether it is bound to the owner (1) or to another object (2)."""
+    (1 yes, 2 no, 0 no set), and per bound annotation whether it is bound to the owner (1) or to another object (2),
+    its value read through the annotation (v) and - when bound to the owner - read from the owner itself (o)."""
     d = getattr(o, "__dict__", {})
     com = d.get("comments")
     comments = [_s_any(c) for c in list(com)] if isinstance(com, list) else []
@@ -272,16 +274,20 @@ def annotable_view(o):
     tgt = 0
     if aset is not None:
         tgt = 1 if getattr(aset, "target", None) is o else 2
-    b = []
-    for a in items:
+    b, vals, owns = [], [], []
+    for a, e in zip(items, anns):
         ad = getattr(a, "__dict__", {})
+        own = e.pop("_own")
         if ad.get("is_attribute"):
             raw = ad.get("_value")
-            b.append(1 if isinstance(raw, tuple) and len(raw) == 2 and raw[0] is o else 2)
-    return {"c": comments, "a": anns}, {"t": tgt, "b": b}
+            mine = isinstance(raw, tuple) and len(raw) == 2 and raw[0] is o
+            b.append(1 if mine else 2)
+            vals.append(e["val"])                 # read through the annotation: getattr(*a._value)
+            owns.append(own if mine else "")      # read directly from the annotated object
+    return {"c": comments, "a": anns}, {"t": tgt, "b": b, "v": vals, "o": owns}
 
 
-_NOANN = ({"c": [], "a": []}, {"t": 0, "b": []})
+_NOANN = ({"c": [], "a": []}, {"t": 0, "b": [], "v": [], "o": []})
 
 
 def canon(root, stop_ns=True):
